@@ -1,6 +1,7 @@
 package idxhdr
 
 import (
+	"bytes"
 	"context"
 	"fmt"
 	"math/rand"
@@ -115,6 +116,34 @@ func seriesOf(w map[string]any) []labels.Labels {
 				}
 			}
 			out = append(out, labels.FromStrings(ls...))
+		}
+	case "wide":
+		// many label names, UTF-8 names and values, names/values whose length needs a 2- or 3-byte
+		// uvarint in the postings offset table (127/128 and 16383/16384 bytes)
+		r := rand.New(rand.NewSource(vt.Int64(w["wseed"])))
+		long := func(n int, c byte) string { return string(bytes.Repeat([]byte{c}, n)) }
+		names := []string{"ünï", "名前", "λ", "emoji_😀", "a.b/c-d", long(127, 'n'), long(128, 'o'), long(300, 'p')}
+		for i, nn := 0, 30+r.Intn(90); i < nn; i++ {
+			names = append(names, fmt.Sprintf("l%03d", i))
+		}
+		special := []string{"ö", "値", "z😀", long(126, 'v'), long(127, 'v'), long(128, 'v'), long(129, 'v'), long(130, 'v'),
+			long(16383, 'w'), long(16384, 'w'), long(16385, 'w'), " ", "a b", "\"quoted\"", "new\nline"}
+		nser := 20 + r.Intn(40)
+		for sI := 0; sI < nser; sI++ {
+			ls := []string{"__name__", "m", "sp", special[sI%len(special)]}
+			for _, nme := range names {
+				if r.Intn(4) == 0 {
+					ls = append(ls, nme, fmt.Sprintf("v%d", r.Intn(6)))
+				}
+			}
+			if sI < len(names) {
+				ls = append(ls, names[sI], special[(sI*7)%len(special)]) // every name occurs; later duplicates win
+			}
+			m := map[string]string{}
+			for i := 0; i+1 < len(ls); i += 2 {
+				m[ls[i]] = ls[i+1]
+			}
+			out = append(out, labels.FromMap(m))
 		}
 	default:
 		panic("unknown world kind")
@@ -234,6 +263,79 @@ func TestC11(t *testing.T) {
 			}
 			meta(desc, k, lazy)
 			yield(vt.Case{"src": "tlc", "world": desc, "k": k, "lazy": lazy, "name": "v", "W": W, "absn": n, "absW": aw})
+		}
+		// sampling boundaries with production-size rates, and the long request lists of lazy expanded
+		// postings (all values of a label in one call): tables of k-1, k, k+1, 2k-1, ... values
+		bn := vt.Pick([]int{31, 33, 64, 129}, []int{31, 32, 33, 63, 64, 65, 127, 128, 129, 257})
+		for bi, n := range bn {
+			desc := map[string]any{"kind": "abs", "n": n, "pos": []string{"last", "mid"}[bi%2], "wseed": 0}
+			for _, k := range []int{32, 64, 8, 1} {
+				lazy := rnd.Intn(6) == 0
+				meta(desc, k, lazy)
+				lists := [][]int{}
+				var all, evens, odds []int
+				for x := 1; x <= 2*n+1; x++ {
+					all = append(all, x)
+					if x%2 == 0 {
+						evens = append(evens, x)
+					} else {
+						odds = append(odds, x)
+					}
+				}
+				twice := func(w []int) []int {
+					var o []int
+					for _, x := range w {
+						o = append(o, x, x)
+					}
+					return o
+				}
+				lists = append(lists, all, evens, odds, twice(all))
+				// windows around every sampled entry: the value before, the entry, the value after (+ absent neighbours)
+				for j := 1; j <= n; j += k {
+					var wdw []int
+					for x := 2*j - 3; x <= 2*j+3; x++ {
+						if x >= 1 && x <= 2*n+1 {
+							wdw = append(wdw, x)
+						}
+					}
+					if k > 1 && len(lists) < 40 {
+						lists = append(lists, wdw)
+					}
+				}
+				lists = append(lists, []int{2*n - 2, 2*n - 1, 2 * n, 2 * n, 2*n + 1}, []int{1, 2, 2 * n}, []int{2, 2 * n, 2*n + 1})
+				for _, aw := range lists {
+					W := make([]string, len(aw))
+					for j, x := range aw {
+						W[j] = absVal(x)
+					}
+					absn := n
+					if n > 33 {
+						absn, aw = 0, []int{} // too deep for the TLC-side replay of the loop
+					}
+					yield(vt.Case{"src": "bound", "world": desc, "k": k, "lazy": lazy, "name": "v", "W": W, "absn": absn, "absW": aw})
+				}
+			}
+		}
+		// wide worlds: many label names, UTF-8, long names / values
+		for wi, nw := 0, vt.Pick(1, 6); wi < nw; wi++ {
+			desc := map[string]any{"kind": "wide", "n": 0, "pos": "", "wseed": rnd.Int63n(1 << 40)}
+			w := ws.get(vt.Normalize(vt.Case{"d": desc})["d"].(map[string]any))
+			for _, k := range []int{1, 2, 32} {
+				lazy := rnd.Intn(4) == 0
+				meta(desc, k, lazy)
+				for _, name := range w.names {
+					vals := w.vals[name]
+					// all values of the label at once, with an absent neighbour after each
+					var W []string
+					for _, v := range vals {
+						W = append(W, v, v+"~")
+					}
+					sort.Strings(W)
+					if len(vals) > 3 || rnd.Intn(vt.Pick(6, 2)) == 0 {
+						yield(vt.Case{"src": "wide", "world": desc, "k": k, "lazy": lazy, "name": name, "W": W, "absn": 0, "absW": []int{}})
+					}
+				}
+			}
 		}
 		nworlds, nlook := vt.Pick(6, 40), vt.Pick(20, 60)
 		for wi := 0; wi < nworlds; wi++ {
